@@ -818,11 +818,13 @@ def spelled_out(argv: list[str]) -> list[str]:
 
 
 def run_case(env: Env, case: dict[str, Any], want_trace: bool = False) -> dict[str, Any]:
-    scratch = tempfile.mkdtemp(prefix="dst-c15-" + os.environ.get("VERIF_RUN_TAG", "x") + "-", dir=SCRATCH_BASE)
+    outer = tempfile.mkdtemp(prefix="dst-c15-" + os.environ.get("VERIF_RUN_TAG", "x") + "-", dir=SCRATCH_BASE)
+    scratch = os.path.join(outer, "s", "s")  # nested, so that a defective `..` resolution under test stays inside the scratch directory
     try:
+        os.makedirs(scratch)
         return _run_case(case, scratch, want_trace)
     finally:
-        shutil.rmtree(scratch, ignore_errors=True)
+        shutil.rmtree(outer, ignore_errors=True)
 
 
 def _run_case(case: dict[str, Any], scratch: str, want_trace: bool) -> dict[str, Any]:
